@@ -83,6 +83,18 @@ PLAN = {
         quick=[rapid("prop", "TestProp", 10000)],
         thorough=[rapid("prop", "TestProp", 60000, shards=16), fuzz("fuzz", "FuzzC05", 40)],
     ),
+    "C06": dict(
+        pkg="c06",
+        rule=("rapid-generated build histories of string cells over a markup-hostile alphabet (angle brackets, quotes, ampersands, entity look-alikes with and without semicolon, script/style/comment/CDATA text, closing tags of the skeleton, "
+              "template delimiters, backslashes, control characters, newlines, U+FFFD and non-characters, wide characters), any shape incl. ragged/zero-cell/zero-value rows and separators anywhere; Id, Class, Caption, TemplateName each empty or hostile; "
+              "optional recording row-class generator; one or two renders on the same wrapper. Oracle: strict tokenizer (tags of the form <name attr=\"v\"> only) + exact skeleton computed from the model + html.UnescapeString of every th/td/caption text and attribute value "
+              "equals the supplied string + generator call log equals [0]++[1-based positions of non-separator rows]. Non-trivial: some supplied string contains one of < > & \" '. Distinct: FNV-64 of the case."),
+        level_text="Generated-input search with a round-trip oracle (tokenise, match the exact skeleton, entity-decode and compare with the model) plus native fuzzing of all seven strings. Exploration level.",
+        level_note="Trusts the harness' tokenizer/skeleton matcher and Go's html.UnescapeString as the entity decoder. Inputs are valid UTF-8 without NUL (html/template replaces those by U+FFFD by design); row-class return values are benign by construction.",
+        technique="property-based testing (rapid) with a strict tokenizer + skeleton round-trip oracle + native Go fuzzing",
+        quick=[rapid("prop", "TestProp", 4000)],
+        thorough=[rapid("prop", "TestProp", 20000, shards=16), fuzz("fuzz", "FuzzC06", 45)],
+    ),
     "C18": dict(
         pkg="c18",
         rule=("strings built from a width-hostile token alphabet (newlines leading/trailing/repeated, CJK wide, full-width, combining, zero-width, emoji ZWJ/flag/skin-tone sequences, "
